@@ -604,35 +604,41 @@ pub fn check_number_bounds(num: &NumberSchema) -> Result<(), String> {
         }
         // If interval is not unbounded in at least one direction, check if the range contains a multiple of multipleOf
         if let (Some(min), Some(max)) = (minimum, maximum) {
-            let step = d.to_f64();
-            // Adjust the range depending on whether it's exclusive or not
-            let min = {
-                let first_num_ge_min = (min / step).ceil() * step;
-                let adjusted_min = if exclusive_minimum && first_num_ge_min == min {
-                    first_num_ge_min + step
+            // an integer that is a multiple of d is a multiple of lcm(d, 1)
+            let step = if num.integer {
+                d.checked_lcm(&Decimal::new(1, 0))
+                    .map_or(d.to_f64(), |l| l.to_f64())
+            } else {
+                d.to_f64()
+            };
+            // Work with the quotients bound / step; a quotient within rounding error of an
+            // integer is that integer (-69.1 / 0.01 is -6909.999999999999 in f64)
+            let snap = |q: f64| {
+                let r = q.round();
+                if (q - r).abs() <= 1e-9 * r.abs().max(1.0) {
+                    r
                 } else {
-                    first_num_ge_min
-                };
-                if num.integer {
-                    adjusted_min.ceil()
-                } else {
-                    adjusted_min
+                    q
                 }
             };
-            let max = {
-                let first_num_le_max = (max / step).floor() * step;
-                let adjusted_max = if exclusive_maximum && first_num_le_max == max {
-                    first_num_le_max - step
+            let kmin = {
+                let q = snap(min / step);
+                if exclusive_minimum && q == q.ceil() {
+                    q + 1.0
                 } else {
-                    first_num_le_max
-                };
-                if num.integer {
-                    adjusted_max.floor()
-                } else {
-                    adjusted_max
+                    q.ceil()
                 }
             };
-            if min > max {
+            let kmax = {
+                let q = snap(max / step);
+                if exclusive_maximum && q == q.floor() {
+                    q - 1.0
+                } else {
+                    q.floor()
+                }
+            };
+            if kmin > kmax {
+                let (min, max) = (kmin * step, kmax * step);
                 return Err(format!(
                     "range {}{}, {}{} does not contain a multiple of {}",
                     if exclusive_minimum { "(" } else { "[" },
